@@ -12,7 +12,7 @@ CHECKS = {
              'valuations; the hand model equals the real compiler output on every point of the exhaustive syntactic grid (phrase x polarity x operand '
              'shapes, regenerated and re-checked by the kernel on every run).',
         note='Trusted: Lean kernel; extract_tables.py; clingo.ast transcription of emitted literals; gringo integer comparison semantics (validated by the '
-             'clingo search on every run). Partial: required...between is a known finding (F1); absolute-value operands outside the grid.',
+             'clingo search on every run). Partial: required...between is a known finding (F1); absolute-value operands are searched only (known finding F19).',
         design='DESIGN.md §6 C03'),
     'C16': dict(
         technique='Lean 4 proof about an executable model of the range enumeration and calendar + correspondence with the real TemporalEntityComponent/datetime; clingo search',
